@@ -279,6 +279,7 @@ def run(tier):
     from . import c19
     c19.close_order(chk)
     c19.close_notify_remembered(chk)
+    c19.received_record_dispatch(chk)     # liveness while closing: a data record received then must be consumed, or no operation is offered any more
     from .. import oblig as _ob2
     _ob2.run_obligations(chk, c19.reneg_declined_obligations())
     # the I/O transition table (shared with C01): a dropped transition leaves the engine open with nothing on offer
